@@ -36,7 +36,20 @@ class XmlTemplate:
         """table: (npts, ncol) array; subs: {tag: text} replacing the text of the first element with that tag"""
         head, foot = self.head, self.foot
         for tag, text in subs.items():
+            tag, _, nth = tag.partition("#")
             pat = re.compile(r"(<%s(?:\s[^>]*)?>)[^<]*(</%s>)" % (re.escape(tag), re.escape(tag)))
+            if nth:
+                # "tag#k": the k-th element with that tag (0-based, document order: head, then foot)
+                want, seen = int(nth), [0]
+
+                def rep(m, text=text, want=want, seen=seen):
+                    seen[0] += 1
+                    return m.group(1) + text + m.group(2) if seen[0] - 1 == want else m.group(0)
+                head = pat.sub(rep, head)
+                foot = pat.sub(rep, foot)
+                if seen[0] <= want:
+                    raise KeyError(tag + "#" + nth)
+                continue
             head, n = pat.subn(lambda m: m.group(1) + text + m.group(2), head)
             if n == 0:
                 foot, n = pat.subn(lambda m: m.group(1) + text + m.group(2), foot)
@@ -65,6 +78,15 @@ def template(dirname, encoding="utf-8"):
     return _cache[dirname]
 
 
+def silixa_channels(variant):
+    """zero-based forward / reverse measurement channel of the template (None if single ended)"""
+    tp = template(SILIXA[variant][0])
+    txt = tp.head + tp.foot
+    fw = int(re.search(r"<forwardMeasurementChannel>(\d+)<", txt).group(1)) - 1
+    m = re.search(r"<reverseMeasurementChannel>(\d+)<", txt)
+    return fw, (int(m.group(1)) - 1 if m else None)
+
+
 def silixa_write(variant, outdir, records, order):
     """records: list of dict(ts: datetime (UTC), ms: int, table: (npts, ncol), series: {tag: float}); written in `order`"""
     dirname, pattern, (tag_start, tag_end) = SILIXA[variant]
@@ -76,6 +98,8 @@ def silixa_write(variant, outdir, records, order):
         start = (r["ts"] - dt.timedelta(seconds=int(r["series"].get("acquisitionTime", 20)))).strftime("%Y-%m-%dT%H:%M:%S") + ".%03dZ" % r["ms"]
         subs = {tag_start: start, tag_end: end}
         subs.update({k_: fmt(v) for k_, v in r["series"].items()})
+        for ch, v in enumerate(r.get("acq", ())):
+            subs["AcquisitionTime#%d" % ch] = fmt(v)
         name = pattern.format(ts=r["ts"], ms=r["ms"])
         (Path(outdir) / name).write_text(tp.render(r["table"], subs), encoding="utf-8")
         names.append(name)
